@@ -11,7 +11,9 @@ def run(res, a):
         apitrace.run_traces(res, "C05", plan, sd, dump=False, tag="" if sd == a.seed else "_s%d" % sd)
     try:
         import apimodel
-        apimodel.run(res, a.seed, a.tier)
+        st = apimodel.run(res, a.seed, a.tier)
+        res.cov.setdefault("input_distribution", {})["f_api"] = {"F": st.get("F", {}), "T": st.get("T", {}), "records": st.get("records", 0), "distinct": st.get("distinct", 0), "mismatches": st.get("mismatches", 0)}
+        res.cov["evaluations"] += st.get("records", 0)
     except ImportError:
         pass
     res.cov["rule"] = ("API traces on the real allocator: old/new size pairs crossing class, page-kind and huge boundaries through every realloc-family entry point; oracles: usable >= new size, first min(old requested,new) bytes preserved, old block intact and live after a failed call (reallocf: released), mi_expand never moves and succeeds exactly up to mi_usable_size. distinct = distinct traces (+ function-level records of harness/f_api.c compared with the Coq API model)")
